@@ -30,6 +30,7 @@ func init() {
 			{ID: "C08.R11", Floor: 20, Run: flagArgsNotComputed, Text: "option flags are not computed from values: at every call of an internal function with an (ID, bool) parameter pair the bool argument is a constant, a forwarded bool parameter, a stored flag or a presence test of a variadic argument - never derived from the value (the zero ID / zero entity are valid values)"},
 			{ID: "C08.R12", Floor: 2, Run: sameTargetSkipChecked, Text: "the same-target shortcut comes after the relation check (= C10.R16): the batch variant panics where the single-entity operation does"},
 			{ID: "C08.R13", Floor: 4, Run: queryIntParamsRangeChecked, Text: "batch sizes are not truncated (= C10.R15): an int count reaches a conversion to a 32-bit type only under a known upper bound"},
+			{ID: "C08.R14", Floor: 4, Run: batchCountOnEveryReturn, Text: "the count is computed on every return: a batch mover that enumerates the filter's tables returns no constant"},
 		},
 	})
 }
